@@ -197,6 +197,8 @@ func runC12(c *hx.Ctx) {
 	}
 	// the dying client's own queue is full and it is subscribed to its own will topic: every other observer still gets the will
 	ownQueueFull(o, c, true)
+	keepAlive(o, c)
+	willObservers(o, c)
 	// clean DISCONNECT: no will, whatever the observers do
 	{
 		n := o.scn("c12 clean disconnect: no will")
@@ -216,6 +218,116 @@ func runC12(c *hx.Ctx) {
 		o.syslog(n, s)
 		c.Stat("scenarios", 1)
 	}
+}
+
+// keepAlive (over real TCP): a client that announced keep-alive 1 s and falls silent ends without DISCONNECT: its will is
+// published — not before one and a half keep-alive intervals have passed, and in bounded time; the same when the client asked for
+// 60 s and the backend imposes a maximum of 1 s; a client that keeps sending PINGREQ is not dropped.
+//
+// Clocks: t0 is taken BEFORE the CONNECT is sent and the will's arrival is read afterwards, so every delay of a loaded machine
+// makes the measured time longer: the lower bound cannot fail because the machine is slow.  The pinging client's verdict is
+// void if the harness itself was stalled for more than a second between two PINGREQs.
+func keepAlive(o *out, c *hx.Ctx) {
+	sc := o.begin(c, "c12 keep-alive over TCP: silent clients are dropped after 1.5 intervals and their wills published, a pinging one stays", 3, 100)
+	defer sc.end()
+	sc.s.backend.maxKeepAliveFor["ka-max"] = time.Second
+	obs := sc.dial("obs", true)
+	if obs.connect("obs", true, nil) == nil || !obs.subscribe(1, "will/#", 1) {
+		sc.direct("setup", false, "observer could not connect")
+		return
+	}
+	type silent struct {
+		id        string
+		keepAlive uint16
+		p         *peer
+		t0        time.Time
+		after     chan time.Duration // when the observer held the will, counted from t0
+		busy      bool               // subscribed to a topic on which another client publishes every 100 ms
+	}
+	cl := []*silent{{id: "ka-own", keepAlive: 1}, {id: "ka-max", keepAlive: 60}, {id: "ka-busy", keepAlive: 1, busy: true}}
+	// broker-to-client traffic does not keep a silent client alive: a publisher feeds the busy topic until the will of its
+	// subscriber has been seen (or the bound for that is over)
+	busyPub := sc.dial("ka-pub", true)
+	busyPub.connect("ka-pub", true, nil)
+	stopBusy := make(chan struct{})
+	busyDone := make(chan struct{})
+	go func() {
+		defer close(busyDone)
+		for i := 0; ; i++ {
+			select {
+			case <-stopBusy:
+				return
+			default:
+			}
+			busyPub.send(&packet.Publish{Message: packet.Message{Topic: "busy/x", Payload: payload(0, 0, i)}})
+			time.Sleep(100 * time.Millisecond)
+		}
+	}()
+	for _, s := range cl {
+		s.p = sc.dial(s.id, true)
+		cp := packet.NewConnect()
+		cp.ClientID = s.id
+		cp.KeepAlive = s.keepAlive
+		cp.Will = &packet.Message{Topic: "will/" + s.id, Payload: []byte("silent"), QOS: 1}
+		s.t0 = time.Now()
+		s.p.send(cp)
+		if s.busy {
+			// its last packet is the SUBSCRIBE: the clock starts before that is sent
+			s.p.await(isConnack, long)
+			s.t0 = time.Now()
+			s.p.send(&packet.Subscribe{ID: 1, Subscriptions: []packet.Subscription{{Topic: "busy/#", QOS: 0}}})
+		}
+		s.after = make(chan time.Duration, 1)
+		go func(s *silent) {
+			topic := "will/" + s.id
+			if waitFor(long, func() bool { return obs.countTopic(topic) >= 1 }) {
+				s.after <- time.Since(s.t0)
+			} else {
+				s.after <- -1
+			}
+		}(s)
+	}
+	// the pinging client: keep-alive 1 s, a PINGREQ every 200 ms for 2.6 s
+	pg := sc.dial("ka-ping", true)
+	cp := packet.NewConnect()
+	cp.ClientID = "ka-ping"
+	cp.KeepAlive = 1
+	cp.Will = &packet.Message{Topic: "will/ka-ping", Payload: []byte("dropped"), QOS: 1}
+	pg.send(cp)
+	acked := pg.await(isConnack, long) != nil
+	start := time.Now()
+	last := start
+	var maxGap time.Duration
+	for time.Since(start) < 2600*time.Millisecond && pg.isOpen() {
+		pg.send(&packet.Pingreq{})
+		if g := time.Since(last); g > maxGap {
+			maxGap = g
+		}
+		last = time.Now()
+		time.Sleep(200 * time.Millisecond)
+	}
+	if g := time.Since(last); g > maxGap {
+		maxGap = g
+	}
+	stalled := maxGap > time.Second
+	alive := pg.isOpen() && obs.countTopic("will/ka-ping") == 0
+	sc.direct("keepalive_alive", acked && (alive || stalled), fmt.Sprintf("client with keep-alive 1 s sending PINGREQ every 200 ms for 2.6 s: still connected=%v, will published=%v, %d PINGRESP (longest gap between two PINGREQs on the harness side %v; void above 1 s)",
+		pg.isOpen(), obs.countTopic("will/ka-ping") > 0, pg.count(isPingresp), maxGap.Round(time.Millisecond)))
+	for _, s := range cl {
+		after := <-s.after
+		got := after >= 0
+		dropped := s.p.isClosed(long)
+		const least = 1350 * time.Millisecond // 1.5 s · 0.9
+		if s.busy {
+			close(stopBusy)
+			<-busyDone
+		}
+		sc.direct("keepalive_will", got && dropped && after >= least,
+			fmt.Sprintf("client %s (keep-alive requested %d s, effective 1 s; publishes received meanwhile: %d) fell silent after its last packet: will received=%v %.2fs after that packet was sent (not before 1.35 s, and within %v), connection dropped=%v", s.id, s.keepAlive, s.p.pubCount(), got, after.Seconds(), long, dropped))
+	}
+	time.Sleep(absence)
+	once := obs.countTopic("will/ka-own") == 1 && obs.countTopic("will/ka-max") == 1 && obs.countTopic("will/ka-busy") == 1
+	sc.direct("will_once", once, fmt.Sprintf("wills of the three dropped clients seen %d, %d and %d time(s)", obs.countTopic("will/ka-own"), obs.countTopic("will/ka-max"), obs.countTopic("will/ka-busy")))
 }
 
 // ------------------------------------------------------------------- C16 / C15
@@ -298,6 +410,11 @@ func backPressure(o *out, c *hx.Ctx, thorough bool) {
 func runC16(c *hx.Ctx) {
 	o := newOut(c)
 	backPressure(o, c, c.Thorough())
+	tokenTimerAfterIdle(o, c)
+	for _, mode := range []string{"first", "resumed", "takeover"} {
+		windowBound(o, c, 3, mode)
+	}
+	windowBound(o, c, 12, "resumed")
 }
 
 // ------------------------------------------------------------------- C14
